@@ -114,7 +114,10 @@ def instances():
     T("c06_insert_n4_grow", "c06::insert_full::<4, 8>(3, 0)", 4, n2=8, items=3, props=C6, covers="some", be_quick=G8)
     T("c06_insert_n8", "c06::insert::<8, 8>(4, 0)", 8, items=4, props=C6, be_quick=G8)
     T("c06_insert_n8_grow", "c06::insert_full::<8, 16>(7, 0)", 8, n2=16, items=7, props=C6, tier="thorough", timeout=7200, covers="some")
-    T("c06_insert_n16", "c06::insert::<16, 16>(5, 3)", 16, be=G8, items=5, props=C6)
+    # 6 elements + 4 tombstones: enough non-EMPTY bytes for a completely full first probe window
+    # (incl. tombstones) with the element of interest displaced behind it
+    T("c06_insert_n16", "c06::insert::<16, 16>(6, 4)", 16, be=G8, items=6, props=C6)
+    T("c06_entry_n16", "c06::entry::<16, 16>(6, 4)", 16, be=G8, items=6, timeout=1800)
     T("c06_insert_n16_grow", "c06::insert_full::<16, 32>(8, 6)", 16, be=G8, n2=32, items=8, props=C6, tier="thorough", timeout=3600)
     T("c06_remove_n4", "c06::remove_reinsert::<4>(SYM, SYM, false)", 4, props=C6, covers="some", share_quick=('C02',))
     T("c06_remove_n8", "c06::remove_reinsert::<8>(SYM, SYM, false)", 8, props=C6, covers="some", share_quick=('C18', 'C02'))
@@ -126,8 +129,17 @@ def instances():
     T("c06_entry_n4_grow", "c06::entry::<4, 8>(3, 0)", 4, n2=8, items=3, covers="some", be_quick=G8)
     T("c06_entry_n8", "c06::entry::<8, 8>(4, 0)", 8, items=4, be_quick=G8)
     T("c06_reserve_n8_grow", "c06::reserve::<8, 16>(3, 0, 5)", 8, n2=16, items=3, be_quick=G8)
+    # len + additional crosses a size boundary that additional alone does not (2 + 6 > 7)
+    T("c06_reserve_n4_cross", "c06::reserve::<4, 16>(2, 0, 6)", 4, n2=16, items=2, be=G8)
     # in-place rehash with element moves needs >= 2 groups (N=16 on g8); even with concrete occupancy,
     # ids and tags it takes > 25 min / > 14 GB: thorough tier only, generous limits (DESIGN section 12)
+    # in-place rehash through reserve(1) on a tombstone-saturated two-group table: concrete occupancy, ids, tags;
+    # symbolic position bits. 1 element: stay-or-move decision (is_in_same_group) and move into an EMPTY slot;
+    # 2 elements: also the swap with a not-yet-rehashed element. 3 elements: thorough tier (below).
+    T("c06_rehash_ct8_b1", "c06::rehash_layout_ct8::<16>(0x0200, 0xFDF3, 0)", 16, n2=16, be=G8, items=1, timeout=1800, mem_gb=20, props=("C06", "C13", "C01", "C05"), cost=50)
+    T("c06_rehash_ct8_b1t", "c06::rehash_layout_ct8::<16>(0x0001, 0x3FFE, 1)", 16, n2=16, be=G8, items=1, timeout=7200, mem_gb=20, props=("C06", "C13"), cost=50, tier="thorough")
+    T("c06_rehash_ct8_b1_try", "c06::rehash_layout_ct8_try::<16>(0x0200, 0xFDF3, 0)", 16, n2=16, be=G8, items=1, timeout=1800, mem_gb=20, props=("C06", "C12"), cost=50)
+    T("c06_rehash_ct8_c2", "c06::rehash_layout_ct8::<16>(0x0202, 0xFDF1, 0)", 16, n2=16, be=G8, items=2, timeout=3000, mem_gb=24, props=("C06", "C05", "C01"), cost=100)
     T("c06_rehash_ct8_a", "c06::rehash_layout_ct8::<16>(0x0302, 0xF0FD & !0x0302, 0)", 16, be=G8, items=3, timeout=10800, mem_gb=44, tier="thorough", cost=100)
     T("c06_shrink_n8_to4", "c06::shrink_to::<8, 4>(2, 0, 0)", 8, n2=4, items=2, be_quick=G8)
     T("c06_shrink_n8_empty", "c06::shrink_to::<8, 1>(0, 0, 0)", 8, items=0)
@@ -136,7 +148,10 @@ def instances():
     T("c06_clear_n8", "c06::clear::<8>()", 8)
     T("c06_iter_hash_n4", "c06::iter_hash::<4>()", 4, covers="some")
     T("c06_iter_hash_n8", "c06::iter_hash::<8>()", 8, covers="some", be_quick=G8)
-    T("c06_iter_hash_n16", "c06::iter_hash::<16>()", 16, be=G8, covers="some", timeout=1800, tier="thorough")
+    T("c06_iter_hash_n16", "c06::iter_hash::<16>()", 16, be=G8, covers="some", timeout=14400, tier="thorough", mem_gb=40)
+    # window 0..8 completely non-EMPTY with a tombstone at 7, one more element at 8 (displaced if it hashes to 0..1)
+    T("c06_iter_hash_lay_n16", "c06::iter_hash_layout::<16>(0x017F, 0x0080, 2)", 16, be=G8, items=8, timeout=1800)
+    T("c06_iter_hash_lay2_n16", "c06::iter_hash_layout::<16>(0x8177, 0x0088, 1)", 16, be=G8, items=8, timeout=1800)
     for c in (0, 1, 3, 4, 7, 8, 14, 15, 28):
         T("c06_base_cap%d" % c, "c06::base_case::<%d>()" % c, 32, tier="quick" if c in (0, 3, 14) else "thorough", props=("C06", "C01", "C08"))
     # ------------------------------------------------------------------ C09 iterators
@@ -165,7 +180,7 @@ def instances():
     T("c01_insert_n4", "c01::insert::<4, 4>(2, 0)", 4, items=2, be=G8, props=C1)
     T("c01_insert_n4_full", "c01::insert::<4, 8>(3, 0)", 4, n2=8, items=3, be=G8, props=C1, covers="some")
     T("c01_insert_n8", "c01::insert::<8, 8>(4, 0)", 8, items=4, props=C1)
-    T("c01_insert_n16", "c01::insert::<16, 16>(4, 3)", 16, items=4, be=G8, props=C1)
+    T("c01_insert_n16", "c01::insert::<16, 16>(6, 4)", 16, items=6, be=G8, props=C1, timeout=1800)
     T("c01_remove_n8", "c01::remove::<8>(false)", 8, props=C1)
     T("c01_remove_entry_n8", "c01::remove::<8>(true)", 8, be=G8, props=C1)
     T("c01_remove_n16", "c01::remove::<16>(false)", 16, be=G8, props=C1, timeout=1800)
@@ -258,6 +273,7 @@ def instances():
     T("c12_fail_unchanged_n4_grow", "c12::fail_unchanged::<4, 8>(3, 0, 1)", 4, n2=8, items=3, be=G8, props=("C12",))
     T("c12_fail_unchanged_n8_grow", "c12::fail_unchanged::<8, 16>(2, 0, 6)", 8, n2=16, items=2, be=G8, props=("C12",))
     T("c12_fail_unchanged_n8_big", "c12::fail_unchanged::<8, 32>(2, 0, 20)", 8, n2=32, items=2, be=S16, props=("C12",))
+    T("c12_fail_unchanged_n4_cross", "c12::fail_unchanged::<4, 16>(2, 0, 6)", 4, n2=16, items=2, be=G8, props=("C12",))
     T("c12_fail_unchanged_n8_noop", "c12::fail_unchanged::<8, 8>(3, 0, 4)", 8, items=3, be=G8, props=("C12",), covers="some")
     # ------------------------------------------------------------------ C08 / C13 capacity contract, churn
     T("c08_no_alloc_insert_n4", "c08::no_alloc_insert::<4>(2, 0)", 4, items=2, props=("C08", "C13"))
@@ -307,7 +323,8 @@ def instances():
         T("c07_%s_n8_n8" % on, "c07::algebra::<8, 8>(3, 2, %d, 9)" % op, 8, props=("C07",), be=S16 if op in (0, 1) else G8, tier="thorough", timeout=14400, mem_gb=40)
     for w, wn in enumerate(("subset", "superset", "disjoint", "eq")):
         T("c07_pred_%s_n4_n4" % wn, "c07::predicates::<4, 4>(%d)" % w, 4, be=G8, props=("C07", "C11"), covers="some", unwind=7, timeout=1500)
-        T("c07_pred_%s_n8_n4" % wn, "c07::predicates::<8, 4>(%d)" % w, 8, be=G8, props=("C07", "C11"), covers="some", tier="thorough", timeout=10800, mem_gb=30)
+        T("c07_pred_%s_n8_n4" % wn, "c07::predicates::<8, 4>(%d)" % w, 8, be=G8, props=("C07", "C11"), covers="some", tier="quick" if w == 0 else "thorough",
+          timeout=1800 if w == 0 else 10800, mem_gb=20 if w == 0 else 30)
         T("c07_pred_%s_n8_n8" % wn, "c07::predicates::<8, 8>(%d)" % w, 8, be=S16, props=("C07", "C11"), covers="some", tier="thorough", timeout=10800, mem_gb=30)
     for op, on in enumerate(("or", "and", "xor", "sub")):
         # one element in B: a second insert would re-open every resize path (growth_left symbolic after the first)
@@ -319,6 +336,8 @@ def instances():
         T("c07_elem_%s_n8" % on, "c07::elem_ops::<8, 8>(3, 0, %d)" % op, 8, items=3, be=BOTH if op in (1, 3) else G8, props=("C07",) + (("C14",) if on == "entry" else ()),
           allow_fail=[r"^assertion\|hashbrown::HashSet::<[^|]*>::get_or_insert_with::<[^|]*\|", r"^assertion\|hashbrown::set::HashSet::<[^|]*>::get_or_insert_with::<[^|]*\|"] if op == 6 else [],
           tier="thorough" if on == "entry" else "quick", timeout=10800 if on == "entry" else 900, mem_gb=40 if on == "entry" else 14)
+    T("c07_elem_replace_n16", "c07::elem_ops::<16, 16>(6, 4, 1)", 16, items=6, be=G8, props=("C07",), timeout=1800)
+    T("c07_elem_insert_n16", "c07::elem_ops::<16, 16>(6, 4, 0)", 16, items=6, be=G8, props=("C07",), timeout=1800)
     T("c07_elem_replace_n4_full", "c07::elem_ops::<4, 8>(3, 0, 1)", 4, n2=8, items=3, be=G8, props=("C07",))
     # ------------------------------------------------------------------ C11 clone / clone_from / ==
     T("c11_clone_n8", "c11::clone_step::<8>(true)", 8, props=("C11", "C03"), be_quick=G8)
@@ -327,6 +346,8 @@ def instances():
     for (nt, ns) in ((8, 8), (8, 4), (4, 8), (8, 1), (16, 8)):
         T("c11_clone_from_%d_%d" % (nt, ns), "c11::clone_from_step::<%d, %d>()" % (nt, ns), max(nt, ns), be=G8, props=("C11", "C03"),
           timeout=1800 if nt < 16 else 10800, tier="quick" if nt < 16 else "thorough", mem_gb=14 if nt < 16 else 30)
+    # 16-bucket target whose capacity() (1 element, 7 tombstones) equals that of the 8-bucket source
+    T("c11_clone_from_16t_8", "c11::clone_from_counts::<16, 8>(1, 7, 2)", 16, n2=8, items=2, be=G8, props=("C11", "C03"), timeout=1800)
     T("c11_map_eq_n4_n4", "c11::map_eq::<4, 4>()", 4, be=G8, props=("C11",), covers="some", unwind=7, timeout=1500)
     T("c11_map_eq_n4_n8", "c11::map_eq::<4, 8>()", 8, be=G8, props=("C11",), covers="some", tier="thorough", timeout=10800, mem_gb=30)
     T("c11_map_eq_n8_n8", "c11::map_eq::<8, 8>()", 8, be=S16, props=("C11",), covers="some", tier="thorough", timeout=10800, mem_gb=30)
@@ -378,16 +399,22 @@ def instances():
     T("c20_serialize_set_n8", "c20::serialize_emits_all::<8>(true)", 8, be=G8, props=("C20",))
     # ------------------------------------------------------------------ evidence shared between properties (quick tier)
     SHARE = {
-        "C13": ["c08_no_alloc_insert_n4", "c08_no_alloc_insert_n16", "c17_probe_step_all", "c17_probe_visits_g8", "c06_remove_n16",
+        "C13": ["c06_rehash_ct8_b1", "c04_rehash_hook_nodrop_n4", "c08_no_alloc_insert_n4", "c08_no_alloc_insert_n16", "c17_probe_step_all", "c17_probe_visits_g8", "c06_remove_n16",
                 "c06_find_n16", "c06_insert_n4_grow", "c06_insert_n16", "c05_find_n16"],
         "C08": ["c17_cap_to_buckets_all", "c17_cap_to_buckets_monotone", "c06_reserve_n8_grow", "c06_clear_n8", "c06_base_cap0", "c06_base_cap3",
-                "c06_base_cap14", "c03_grow_n8", "c03_shrink_n8", "c03_no_block_when_unused", "c06_shrink_n8_to4"],
-        "C12": ["c17_layout_all"],
-        "C03": ["c04_clone_from_panic_8_4", "c11_clone_n8", "c11_clone_from_8_4", "c19_par_drain_producer_n8"],
-        "C02": ["c04_hasher_grow_nodrop_n8", "c05_insert_n8", "c05_remove_n8", "c03_drop_n8", "c17_table_layout_types"],
+                "c06_base_cap14", "c03_grow_n8", "c03_shrink_n8", "c03_no_block_when_unused", "c06_shrink_n8_to4",
+                "c14_map_occ_replace_entry_with_n8", "c06_reserve_n4_cross"],
+        "C12": ["c17_layout_all", "c06_rehash_ct8_b1_try"],
+        "C03": ["c04_clone_from_panic_8_4", "c11_clone_n8", "c11_clone_from_8_4", "c19_par_drain_producer_n8", "c04_drop_panic_retain_n8",
+                "c04_rehash_hook_drop_n4", "c04_drop_panic_clear_n8"],
+        "C02": ["c04_hasher_grow_nodrop_n8", "c05_insert_n8", "c05_remove_n8", "c03_drop_n8", "c17_table_layout_types",
+                "c04_rehash_hook_drop_n4", "c04_rehash_hook_nodrop_n4", "c04_drop_panic_drain_n8"],
         "C11": ["c07_pred_eq_n4_n4", "c04_clone_from_panic_8_4"],
-        "C01": ["c14_map_occ_remove_n8", "c06_base_cap3"],
-        "C05": ["c15_table_sloppy_n8_k2"],
+        "C01": ["c06_rehash_ct8_b1", "c14_map_occ_remove_n8", "c06_base_cap3", "c14_map_occ_replace_entry_with_n8", "c14_map_occ_and_replace_entry_with_n8",
+                "c14_rustc_or_insert_n4_full", "c14_raw_mut_or_insert_n8"],
+        "C05": ["c15_table_sloppy_n8_k2", "c06_rehash_ct8_c2", "c14_map_occ_replace_entry_with_n8"],
+        "C09": ["c04_rehash_hook_drop_n4", "c02_zst_iterate_n8"],
+        "C10": ["c02_zst_remove_n8", "c02_zst_retain_n8", "c02_zst_extract_if_n8"],
         "C14": ["c04_replace_entry_validity_n8", "c07_elem_entry_n8"],
         "C04": [],
     }
